@@ -88,6 +88,9 @@ var nontrivialProbes = map[string][]string{
 	"C06": {"dequeue_start"},
 	"C07": {"delayed_job_started", "replace_with_waiting"},
 	"C08": {"failfast_failure", "continue_after_failure"},
+	"C10": {"restart_with_"},
+	"C11": {"shutdown_", "persist_liveness_checked"},
+	"C12": {"retention_removed_jobs", "purge_undefined_pipeline"},
 	"C15": {"schedulable_probe", "http_list"},
 	"C16": {"reload_while_queued", "reload_while_running"},
 }
